@@ -2,6 +2,8 @@ package sim
 
 import (
 	"fmt"
+
+	"google.golang.org/grpc/metadata"
 	"strings"
 
 	"verif/simrt"
@@ -51,6 +53,17 @@ func runSoak(w *World, rs *RunSpec) {
 			drawTermination(c, p)
 			if p.pausedReader {
 				continue
+			}
+			// long-lived caller contexts: an RPC that is over must not depend
+			// on its context ending to be cleaned up
+			p.KeepCtx = true
+			switch (ph + i) % 7 {
+			case 3:
+				// rejected before it reaches the wire (a metadata value that cannot be encoded)
+				p.ReqMD = metadata.MD{"sim-bad": []string{"\xff\xfe"}}
+				p.expectLocalReject = true
+			case 5:
+				p.Method = "/sim.Test/NoSuchMethod"
 			}
 			plans = append(plans, p)
 			if ph < 2 {
